@@ -8,8 +8,9 @@ namespace Relic.Props.C05
 open Relic Relic.MsiDigest
 
 /-- **msi_order_eq_spec.** For every directory tree in which, in each storage, the children's name fields are
-    well formed and their names pairwise distinct, and no entry below the root carries one of the two signature
-    names, relic's walk neither panics nor fails, and the bytes it feeds to the hash are exactly the
+    well formed and their names pairwise distinct (since the repair of Fmsi-tar entries below the root may carry the
+    signature names: an embedded signed package; the original walk skipped them, `C18.tar_differs_nested_signature_name`),
+    relic's walk neither panics nor fails, and the bytes it feeds to the hash are exactly the
     specification's: children in `dirent_cmp_hash` order, signature streams of the root left out, sub-storages
     recursively, each storage's CLSID after its children. -/
 theorem msi_order_eq_spec (root : Node) (h : Node.okAt true root) :
